@@ -36,6 +36,13 @@ CHECKS = {
         "Bounded to 4 items and 8 rounds; the usage protocol is the one in the property (checked against real traces, not assumed).",
         "§4 C26",
     ),
+    "C08": (
+        "progmc c08",
+        "bounded-exhaustive enumeration of (type, operator, operand tuple) and (source, target, value) over boundary values, compiled and executed by the real CLI, against big-integer / IEEE reference arithmetic",
+        "Every integer type (quick: 8/32/64/128-bit; thorough: all 12) x 16 binary and 3 unary operators x all pairs of 14 boundary operands, at runtime and (60 tuples per case) inside comptime; f32/f64 x 10 operators x 15x15 values incl. +-0, subnormal, inf, NaN; all 14x14 explicit numeric casts and all implicit conversions the language offers x boundary values; bool and char operators. Every evaluation is performed by an executable built by the real CLI and compared with Python big-integer arithmetic wrapped to the width, exact nearest-even int->float rounding and IEEE arithmetic.",
+        "Operands are boundary values and their neighbours, not all 2^64 values; undefined cases of the statement (x/0, MIN/-1, shift >= width, out-of-range float->int) are not generated.",
+        "§4 C08",
+    ),
     "C12": (
         "capy-verif tyrel-mc",
         "bounded-exhaustive enumeration of ordered type pairs over a depth-<=2 type universe against the algebraic laws of the statement, on the real Ty relation methods",
